@@ -63,7 +63,10 @@ pub mod exfiltrator;
 use std::borrow::Borrow;
 use std::fmt::{Debug, Formatter, Result as FmtResult};
 use std::io::{Error, ErrorKind, Read};
+#[cfg(not(sighook_verif))]
 use std::os::unix::net::UnixStream;
+#[cfg(sighook_verif)]
+use libc::vshim::net::UnixStream;
 
 use libc::{self, c_int};
 
